@@ -9,7 +9,7 @@ Require Import PV.Proofs.NarrowBasics PV.Proofs.NarrowLift PV.Proofs.NarrowLeave
 Lemma c02_guard_split : forall c o, c02_guard c o = true ->
   wf_obj o = true /\ cond_ok c o = true /\ multiple_inheritance o = false /\
   subclass_bool o = false /\ promotion_negative c o = false /\ enum_class_object o = false /\
-  sequence_pattern_str c o = false.
+  sequence_pattern_str c o = false /\ assert_promotion c o = false.
 Proof.
   intros c o H. unfold c02_guard in H.
   repeat (apply andb_true_iff in H; destruct H as [H ?]).
@@ -20,9 +20,18 @@ Qed.
 Lemma c02_guard_join : forall c o,
   wf_obj o = true -> cond_ok c o = true -> multiple_inheritance o = false ->
   subclass_bool o = false -> promotion_negative c o = false -> enum_class_object o = false ->
-  sequence_pattern_str c o = false ->
+  sequence_pattern_str c o = false -> assert_promotion c o = false ->
   c02_guard c o = true.
-Proof. intros c o H1 H2 H3 H4 H5 H6 H7. unfold c02_guard. rewrite H1, H2, H3, H4, H5, H6, H7. reflexivity. Qed.
+Proof. intros c o H1 H2 H3 H4 H5 H6 H7 H8. unfold c02_guard. rewrite H1, H2, H3, H4, H5, H6, H7, H8. reflexivity. Qed.
+
+Lemma ap_split : forall a b o,
+  (has_assert a || has_assert b) && numeric_like o = false ->
+  assert_promotion a o = false /\ assert_promotion b o = false.
+Proof.
+  intros a b o H. unfold assert_promotion.
+  destruct (numeric_like o); [|rewrite !andb_false_r; tauto].
+  rewrite andb_true_r in H. apply orb_false_iff in H. destruct H as [-> ->]. tauto.
+Qed.
 
 Lemma sps_or : forall a b o, sequence_pattern_str a o || sequence_pattern_str b o = false ->
   sequence_pattern_str a o = false /\ sequence_pattern_str b o = false.
@@ -116,15 +125,15 @@ Proof. destruct l; simpl; intros H; try discriminate; reflexivity. Qed.
 (* ---- every condition kind, both polarities ---- *)
 Ltac guard_parts H :=
   let Hw := fresh "Hw" in let Hok := fresh "Hok" in let Hmi := fresh "Hmi" in
-  let Hsb := fresh "Hsb" in let Hpn := fresh "Hpn" in let Hec := fresh "Hec" in let Hss := fresh "Hss" in
-  destruct (c02_guard_split _ _ H) as [Hw [Hok [Hmi [Hsb [Hpn [Hec Hss]]]]]].
+  let Hsb := fresh "Hsb" in let Hpn := fresh "Hpn" in let Hec := fresh "Hec" in let Hss := fresh "Hss" in let Hap := fresh "Hap" in
+  destruct (c02_guard_split _ _ H) as [Hw [Hok [Hmi [Hsb [Hpn [Hec [Hss Hap]]]]]]].
 
 Ltac weaken L := eapply ksound_weaken; [|apply L]; cbv beta; intros o [Hh Hg].
 
 Lemma cond_sound : forall c,
   asound (cond_acon c) (P c true) /\ asound (invert (cond_acon c)) (P c false).
 Proof.
-  induction c as [ |cs|cs|l|l|ls|op n|t|t|c0| |b0|po|n star|pre star post|po|kps|a IHa b IHb|c IH|a IHa b IHb|a IHa b IHb];
+  induction c as [ |cs|cs|l|l|ls|op n|t|t|c0| |b0|po|n star|pre star post|po|kps|a IHa b IHb|c1|l1|n1 b1|c IH|a IHa b IHb|a IHa b IHb];
     cbn [cond_acon invert flip negb].
   - (* truthy *)
     split; apply asound_leaf.
@@ -267,20 +276,33 @@ Proof.
     + apply asound_and.
       * apply (asound_weaken _ (P a true)); [|exact IHa1].
         intros o [Hh Hg]. guard_parts Hg. simpl in Hh, Hok, Hpn.
-        apply andb_true_iff in Hok. apply orb_false_iff in Hpn. apply sps_split in Hss.
+        apply andb_true_iff in Hok. apply orb_false_iff in Hpn. apply sps_split in Hss. apply ap_split in Hap.
         destruct (holds a o) as [[|]|] eqn:Ea; try discriminate.
         split; [exact Ea|apply c02_guard_join; tauto].
       * apply (asound_weaken _ (P b true)); [|exact IHb1].
         intros o [Hh Hg]. guard_parts Hg. simpl in Hh, Hok, Hpn.
-        apply andb_true_iff in Hok. apply orb_false_iff in Hpn. apply sps_split in Hss.
+        apply andb_true_iff in Hok. apply orb_false_iff in Hpn. apply sps_split in Hss. apply ap_split in Hap.
         destruct (holds a o) as [[|]|]; try discriminate.
         split; [exact Hh|apply c02_guard_join; tauto].
     + apply (asound_weaken _ (fun o => P a false o \/ P b false o)); [|apply asound_or; assumption].
       intros o [Hh Hg]. guard_parts Hg. simpl in Hh, Hok, Hpn.
-      apply andb_true_iff in Hok. apply orb_false_iff in Hpn. apply sps_split in Hss.
+      apply andb_true_iff in Hok. apply orb_false_iff in Hpn. apply sps_split in Hss. apply ap_split in Hap.
       destruct (holds a o) as [[|]|] eqn:Ea; try discriminate.
       * right. split; [exact Hh|apply c02_guard_join; tauto].
       * left. split; [exact Ea|apply c02_guard_join; tauto].
+  - (* assert_is_instance *)
+    split; apply asound_leaf.
+    + weaken (isinstance_pos_sound c1). guard_parts Hg. simpl in Hh. injection Hh as Hh'.
+      unfold assert_promotion in Hap. simpl in Hap. split; [exact Hh'|]. repeat split; assumption.
+    + weaken (isinstance_neg_sound c1). guard_parts Hg. simpl in Hh. injection Hh as Hh'.
+      unfold assert_promotion in Hap. simpl in Hap. split; [exact Hh'|]. repeat split; assumption.
+  - (* assert_is *)
+    split; apply asound_leaf.
+    + weaken (isvalue_pos_sound l1). guard_parts Hg. simpl in Hh. injection Hh as Hh'.
+      unfold assert_promotion in Hap. simpl in Hap. split; [apply obj_eqb_eq; exact Hh'|]. repeat split; assumption.
+    + weaken (isvalue_neg_sound l1). simpl in Hh. injection Hh as Hh'. exact Hh'.
+  - (* hasattr *)
+    split; apply asound_leaf; apply addannot_sound.
   - (* not *)
     destruct IH as [IH1 IH2]. split.
     + apply (asound_weaken _ (P c false)); [|exact IH2].
@@ -292,17 +314,17 @@ Proof.
     + apply asound_and.
       * apply (asound_weaken _ (P b true)); [|exact IHb1].
         intros o [Hh Hg]. guard_parts Hg. simpl in Hh, Hok, Hpn.
-        apply andb_true_iff in Hok. apply orb_false_iff in Hpn. apply sps_split in Hss.
+        apply andb_true_iff in Hok. apply orb_false_iff in Hpn. apply sps_split in Hss. apply ap_split in Hap.
         destruct (holds a o) as [[|]|]; try discriminate.
         split; [exact Hh|apply c02_guard_join; tauto].
       * apply (asound_weaken _ (P a true)); [|exact IHa1].
         intros o [Hh Hg]. guard_parts Hg. simpl in Hh, Hok, Hpn.
-        apply andb_true_iff in Hok. apply orb_false_iff in Hpn. apply sps_split in Hss.
+        apply andb_true_iff in Hok. apply orb_false_iff in Hpn. apply sps_split in Hss. apply ap_split in Hap.
         destruct (holds a o) as [[|]|] eqn:Ea; try discriminate.
         split; [exact Ea|apply c02_guard_join; tauto].
     + apply (asound_weaken _ (fun o => P b false o \/ P a false o)); [|apply asound_or; assumption].
       intros o [Hh Hg]. guard_parts Hg. simpl in Hh, Hok, Hpn.
-      apply andb_true_iff in Hok. apply orb_false_iff in Hpn. apply sps_split in Hss.
+      apply andb_true_iff in Hok. apply orb_false_iff in Hpn. apply sps_split in Hss. apply ap_split in Hap.
       destruct (holds a o) as [[|]|] eqn:Ea; try discriminate.
       * left. split; [exact Hh|apply c02_guard_join; tauto].
       * right. split; [exact Ea|apply c02_guard_join; tauto].
@@ -310,19 +332,19 @@ Proof.
     destruct IHa as [IHa1 IHa2]. destruct IHb as [IHb1 IHb2]. split.
     + apply (asound_weaken _ (fun o => P a true o \/ P b true o)); [|apply asound_or; assumption].
       intros o [Hh Hg]. guard_parts Hg. simpl in Hh, Hok, Hpn.
-      apply andb_true_iff in Hok. apply orb_false_iff in Hpn. apply sps_split in Hss.
+      apply andb_true_iff in Hok. apply orb_false_iff in Hpn. apply sps_split in Hss. apply ap_split in Hap.
       destruct (holds a o) as [[|]|] eqn:Ea; try discriminate.
       * left. split; [exact Ea|apply c02_guard_join; tauto].
       * right. split; [exact Hh|apply c02_guard_join; tauto].
     + apply asound_and.
       * apply (asound_weaken _ (P a false)); [|exact IHa2].
         intros o [Hh Hg]. guard_parts Hg. simpl in Hh, Hok, Hpn.
-        apply andb_true_iff in Hok. apply orb_false_iff in Hpn. apply sps_split in Hss.
+        apply andb_true_iff in Hok. apply orb_false_iff in Hpn. apply sps_split in Hss. apply ap_split in Hap.
         destruct (holds a o) as [[|]|] eqn:Ea; try discriminate.
         split; [exact Ea|apply c02_guard_join; tauto].
       * apply (asound_weaken _ (P b false)); [|exact IHb2].
         intros o [Hh Hg]. guard_parts Hg. simpl in Hh, Hok, Hpn.
-        apply andb_true_iff in Hok. apply orb_false_iff in Hpn. apply sps_split in Hss.
+        apply andb_true_iff in Hok. apply orb_false_iff in Hpn. apply sps_split in Hss. apply ap_split in Hap.
         destruct (holds a o) as [[|]|]; try discriminate.
         split; [exact Hh|apply c02_guard_join; tauto].
 Qed.
@@ -390,6 +412,14 @@ Example match_seq_example :
   holds c (OTuple [LInt 1]) = Some false /\ holds c (OStr [97%N]) = Some false /\
   narrow V c false = V.
 Proof. vm_compute. repeat split; reflexivity. Qed.
+
+Lemma assert_promotion_refuted :
+  exists V c pol o, wf_obj o = true /\ cond_ok c o = true /\ member o V = true /\ holds c o = Some pol /\
+    assert_promotion c o = true /\ member o (narrow V c pol) = false.
+Proof.
+  exists [plain (VTyped CFloat)], (CAssertInst CInt), true, (OInt 1).
+  vm_compute. repeat split; reflexivity.
+Qed.
 
 Lemma narrow_keeps_value_refuted : ~ narrow_keeps_value_full_statement.
 Proof.
